@@ -304,10 +304,10 @@ def model_check(ctx):
 
 NEED = {  # coverage obligations: antecedent counters that must be hit (summed over the validated tests)
     "quick": {"join": 100, "leave": 5, "graft": 200, "prune": 20, "pruneLeave": 5, "wireGraft": 100, "wirePrune": 20, "wireIHave": 5,
-              "backoffChecked": 1, "final": 2000, "outcome": 5000, "dup": 1000, "selfDeliver": 100, "sendMsg": 2000,
+              "final": 2000, "outcome": 5000, "dup": 1000, "selfDeliver": 100, "sendMsg": 2000,
               "wireMatched": 2000, "origin": 1000, "stream": 300},
     "thorough": {"join": 300, "leave": 20, "graft": 1000, "prune": 100, "pruneRemote": 1, "pruneLeave": 20, "closedMesh": 1,
-                 "wireGraft": 500, "wirePrune": 100, "wireIHave": 50, "backoffChecked": 5, "final": 10000,
+                 "wireGraft": 500, "wirePrune": 100, "wireIHave": 50, "final": 10000,
                  "outcome": 30000, "dup": 5000, "selfDeliver": 500, "sendMsg": 10000, "wireMatched": 10000,
                  "wireUrgent": 1, "origin": 5000, "stream": 1000},
 }
